@@ -970,12 +970,10 @@ class Context(MetadataContextMixin, object):
                 reg = self.state_types_registry()
                 t = reg.get(type(data))
                 try:
-                    if state.metadata.get("extension") is None:
-                        b, mime, typeid = encode_state_data(data)
-                    else:
-                        b, mime, typeid = encode_state_data(
-                            data, extension=state.metadata["extension"]
-                        )
+                    extension = key_extension(self.store_key) or state.metadata.get(
+                        "extension"
+                    )
+                    b, mime, typeid = encode_state_data(data, extension=extension)
                     store.store(self.store_key, b, metadata)
                 except:
                     traceback.print_exc()
